@@ -228,6 +228,8 @@ func (r *Transport) writeLoop() {
 					if reconnectErr := r.reconnect(tr); reconnectErr != nil {
 						r.mu.Unlock()
 						writeOrDone(r.ctx, writeRes{err: fmt.Errorf("reconnect cause[%v]: %w", err, reconnectErr)}, r.writeResCh[data.id])
+						// the write loop ends here: fail queued and later writes instead of leaving them blocked
+						r.cancel()
 						return
 					}
 					r.mu.Unlock()
